@@ -81,7 +81,7 @@ func checkC03(c *core.Ctx) {
 	sp := theory.AllSpellings()
 	variants := 1
 	if !c.Quick() {
-		variants = 11
+		variants = 14
 	}
 	per := len(sp) * (len(sp) + 1)
 	total := len(keys) * per
@@ -95,13 +95,13 @@ func checkC03(c *core.Ctx) {
 	var acceptedMu sync.Mutex
 	nCases := total * variants
 	if c.Quick() {
-		nCases = total + 4400 // the full --key sweep plus a seeded sample of the carried-key variants
+		nCases = total + 6000 // the full --key sweep plus a seeded sample of the carried-key variants
 	}
 	c.Stream("sweep", nCases, func(i int, rr *rand.Rand) {
 		variant := i / total
 		j := i % total
 		if c.Quick() && i >= total {
-			variant = 3 + rr.Intn(8)
+			variant = 3 + rr.Intn(11)
 			j = rr.Intn(total)
 		}
 		k := keys[j/per]
@@ -205,6 +205,26 @@ func checkC03(c *core.Ctx) {
 			text = "R[1]{key=" + other + "} R[2] " + text + "{key=" + k.String() + "}"
 			args = []string{"text", "conv", "syllable"}
 			lead = 2
+		}
+		// --debug must not change the answer (11): before the subcommands or after them
+		if variant == 11 {
+			if j%2 == 0 {
+				args = append([]string{"--debug"}, args...)
+			} else {
+				args = append(args, "--debug")
+			}
+		}
+		// the key stated twice in one pair of braces, first another one: the entry stated last counts, it is the one
+		// the printed instance carries (12)
+		if variant == 12 {
+			other := keys[(j/per+7+j%5)%len(keys)].String()
+			text += "{key=" + other + ",key=" + k.String() + "}"
+			args = []string{"text", "conv", "syllable"}
+		}
+		// entries crd has no meaning for (free metadata) next to the key, with names that sort before and after it (13)
+		if variant == 13 {
+			text += [][2]string{{"{capo=2,key=", "}"}, {"{author=x,bar=1,key=", ",zz=top}"}, {"{1=one,Key=H,key=", "}"}, {"{key=", ",capo=3}"}}[j%4][0] + k.String() + [][2]string{{"{capo=2,key=", "}"}, {"{author=x,bar=1,key=", ",zz=top}"}, {"{1=one,Key=H,key=", "}"}, {"{key=", ",capo=3}"}}[j%4][1]
+			args = []string{"text", "conv", "syllable"}
 		}
 		var r *runner.Result
 		if viaFile {
